@@ -390,7 +390,12 @@ func (i *Interpreter) Exec(ctx context.Context, bs match.Bindings, props core.St
 		if _, is := err.(*goja.InterruptedError); is {
 			return nil, Interrupted
 		}
-		return nil, err
+		// Render the error now.  For a thrown object, Error()
+		// runs script code (toString, a getter for "message"),
+		// which has to happen here - where the runtime is still
+		// watched and a panic is still caught - and not when a
+		// caller gets around to looking at the error.
+		return nil, errors.New(errorText(err))
 	}
 
 	// Exporting the value can run code (say a getter), which can
@@ -467,6 +472,16 @@ func canonicalize(x interface{}) (interface{}, error) {
 		return nil, err
 	}
 	return y, nil
+}
+
+// errorText is err.Error(), with a panic turned into text.
+func errorText(err error) (s string) {
+	defer func() {
+		if r := recover(); r != nil {
+			s = fmt.Sprintf("%s", r)
+		}
+	}()
+	return err.Error()
 }
 
 // export calls v.Export() and turns a panic into an error (as
